@@ -79,6 +79,20 @@ then updates through every value; 'order:rebind-into-differently-ordered-file' c
 STRING identities: look-alike groups of c08.ID_GROUPS ('w-0b', 'w-0d', 'w-0', ...) occur together in one history.
 Identities never contain '_', so `basename.endswith('_<identity>.db')` is an exact test of the file's identity.
 
+CONCURRENT FORK TREES (family 'concurrent-fork', quick + thorough; section "concurrent fork tree" below): REAL os.fork()
+of the harness process with the PARENT RUNNING ON next to its children — the situation of every pre-forking server, and
+the one thing simulated identities cannot show: after a fork the child holds a COPY of the parent's open store handles
+(mapping, used size, positions) as they were at the fork, while the parent keeps appending series to, growing and
+updating the very same files.  `mpsim.ForkTree` runs one process at a time and fixes the interleaving with pipes (no
+sleeps).  Scripts: for 4 metric pools EVERY interleaving of the parent's three post-fork steps (new series, existing
+series, new series in another file) with the child's first two operations; chains (the child forks a grandchild before
+or after its own first operation, exits before it); several children forked at different file sizes; children that never
+act; files that grow (initial size patched to 256/512) between the fork and the child's first operation; seeded random
+trees (<= 4 forks, depth <= 3).  Oracles, after every action, all processes idle: C09:child-wrote-parent-file /
+C09:foreign-file-written (raw bytes of every file that is not the acting process's own are unchanged — header, entries,
+size, tail), C09:fork-conservation (collected totals = updates issued by all processes), C09:fork-per-pid-gauge /
+C09:fork-gauge-aggregate (per-process gauge contributions).  No model comparison (the Lean model has one acting closure).
+
 FALSY identities: the identity pool contains 0 (and the empty string, which the clean library accepts end to end: files
 `counter_.db`, pid label '') — as the initial identity, as the target of a change, as the identity returned to, as a
 reused pid of a new worker and as the argument of mark_process_dead; the systematic families are re-run with 10 or 11
@@ -1316,6 +1330,360 @@ def run_fork_history(scen):
     return res
 
 
+# ================================================================================================== concurrent fork tree
+# REAL os.fork() with the parent RUNNING ON next to its children (mpsim.ForkTree; interleaving fixed by pipes).  A case:
+#   {'cfork': True, 'pool': [...], 'variant': v, ('initial_mmap_size': n,) 'script': [action, ...]}
+#   action = ['run', process, [metric-level steps]] | ['fork', parent process, new process] | ['exit', process]
+# Processes are named 'P' (the harness process: the pre-fork master), 'P.0', 'P.1' (its children), 'P.0.0' (a grandchild)...
+# Every process works on the metric objects / value closure / open MmapedDict handles it INHERITED at its fork.  Exactly
+# one process acts at a time and the harness observes the directory (raw bytes + the store reader + the real collector)
+# after every action, i.e. while every process is idle.  Actions naming a process that does not exist (any more) are
+# skipped, so shrunk scripts stay valid.  Oracles (property text only; there is no model comparison here — the Lean
+# closure model has one acting closure at a time):
+#  (ii) bytes: an action of process X leaves every file not named `*_<real pid of X>.db` byte-identical — size, header,
+#       entries, unused tail.  The file of an ANCESTOR of X changed -> C09:child-wrote-parent-file ("the previous identity's
+#       files are never written again by the new process"); any other foreign file -> C09:foreign-file-written; fork and
+#       exit by themselves change no byte of any file; no file disappears;
+#  (i)  C09:fork-conservation: collected counters / summary _count,_sum / histogram buckets,_count,_sum == totals of ALL
+#       updates issued by ALL processes of the tree so far (exact: amounts are multiples of 1/8);
+#  (iii) C09:fork-per-pid-gauge / C09:fork-gauge-aggregate: every process that reached a value object holds, for each
+#       gauge child in ITS memory (inherited ones included: the re-binding re-creates them at what its own file holds,
+#       0.0), its own contribution = what was last set/inc'ed in THAT process; processes that never acted hold none.
+def cfork_pid_text(what, pids):
+    """real pids -> process names in a message (stable `what` texts across runs)"""
+    import re
+    for name, pid in sorted(pids.items(), key=lambda kv: -kv[1]):
+        what = re.sub(r'(?<![0-9.])%d(?![0-9])' % pid, '<%s>' % name, what)
+    return what
+
+
+def cfork_owner(bn, pids):
+    for name, pid in pids.items():
+        if bn.endswith('_%s.db' % pid):
+            return name
+    return None
+
+
+def header_of(raw):
+    import struct
+    return struct.unpack_from('i', raw, 0)[0] if len(raw) >= 4 else None
+
+
+def oracle_tree(res, i, act, tree, nth, before, after, raw_before, raw_after):
+    kind, who = act[0], act[1]
+    pid = tree.pids[who]
+    anc = tree.ancestors(who) if kind == 'run' else []
+    for bn, raw in raw_before.items():
+        if bn not in raw_after:
+            res.failures.append(('C09:foreign-file-written', 'file %s disappeared during %r of process %s' % (bn, kind, who), i))
+            continue
+        if raw_after[bn] == raw or (kind == 'run' and bn.endswith('_%s.db' % pid)):
+            continue
+        owner = cfork_owner(bn, tree.pids)
+        nb = before.get(bn, [])
+        na = after.get(bn, [])
+        lost = [k for k in [e[0] for e in nb] if k not in [e[0] for e in na]]
+        detail = 'size %d -> %d, used-size header %r -> %r, readable entries %d -> %d%s' % (
+            len(raw), len(raw_after[bn]), header_of(raw), header_of(raw_after[bn]), len(nb), len(na),
+            ('; series no longer in the file: %s' % ', '.join(lost[:3])) if lost else '')
+        if kind != 'run':
+            res.failures.append(('C09:foreign-file-written', 'the %s of process %s itself changed %s (%s)' % (kind, who, bn, detail), i))
+        elif owner in anc:
+            res.failures.append(('C09:child-wrote-parent-file',
+                                 "operation group #%d of forked process %s (steps %r) modified %s, the file of its %s %s, which was idle: %s" % (
+                                     nth, who, [s[:3] for s in act[2]][:4], bn,
+                                     'parent' if owner == anc[0] else 'ancestor', owner, detail), i))
+        else:
+            res.failures.append(('C09:foreign-file-written', 'operations of process %s modified %s (file of %s): %s' % (
+                who, bn, owner or 'no process of the tree', detail), i))
+    for bn in raw_after:
+        if bn not in raw_before and not (kind == 'run' and bn.endswith('_%s.db' % pid)):
+            res.failures.append(('C09:foreign-file-written', 'file %s created by the %s of process %s (real pid %s)' % (bn, kind, who, pid), i))
+
+
+def run_cfork(scen):
+    from prometheus_client import mmap_dict
+    saved = mmap_dict._INITIAL_MMAP_SIZE
+    try:
+        if scen.get('initial_mmap_size'):
+            mmap_dict._INITIAL_MMAP_SIZE = scen['initial_mmap_size']
+        return _run_cfork(scen)
+    finally:
+        mmap_dict._INITIAL_MMAP_SIZE = saved
+
+
+def _run_cfork(scen):
+    from prometheus_client import values
+    res = Result()
+    pool = scen['pool']
+    script = scen['script']
+    limit = scen.get('initial_mmap_size') or 65536
+    names = sorted({a[2] for a in script if a[0] == 'fork'})
+    with mpsim.Sim() as sim:
+        cls = values.MultiProcessValue()        # the library's default: the real os.getpid
+        sim.classes.append(cls)
+        sim.use(cls)
+        proc = c08.RealProc(cls, pool, sim.use, sim.clock, scen.get('variant', 0))
+
+        def handler(payload):
+            if payload[0] == 'pid':
+                return os.getpid()
+            return run_steps_real(proc, pool, payload[1], sim.clock)
+
+        tree = mpsim.ForkTree(names, handler)
+        oracle = Oracle(pool)
+        mem = {'P': []}         # process -> the children existing in ITS memory (inherited at the fork, then its own)
+        nrun = {'P': 0}         # process -> 'run' actions since its fork
+        at_fork = {}            # process -> {ancestor file: (entries, size)} when it was forked
+        after = mpsim.snapshot(sim.dir)
+        raw_after = mpsim.raw_snapshot(sim.dir)
+        i = 0
+        try:
+            for i, act in enumerate(script):
+                kind, who = act[0], act[1]
+                if who not in tree.alive or (kind == 'fork' and act[2] in tree.pids) or (kind == 'exit' and who == 'P'):
+                    res.count('cfork:skipped-action')
+                    continue
+                before, raw_before = after, raw_after
+                res.count('cfork:' + kind)
+                if kind == 'run':
+                    if nrun[who] == 0 and who != 'P':
+                        # coverage: did an ancestor append series / grow its file between the fork and this first operation
+                        own = at_fork[who]
+                        if any(bn in own and len(before[bn]) > own[bn][0] for bn in before):
+                            res.count('cfork:ancestor-appended-series-between-fork-and-first-op')
+                        if any(bn in own and len(raw_before[bn]) > own[bn][1] for bn in raw_before):
+                            res.count('cfork:ancestor-file-grew-between-fork-and-first-op')
+                        if any(bn in own and len(raw_before[bn]) > limit for bn in raw_before):
+                            res.count('cfork:inherited-handle-on-grown-file')
+                    nrun[who] += 1
+                    rep = tree.call(who, ['steps', act[2]])
+                    if 'exc' in rep:
+                        res.failures.append(('C09:raises', 'process %s, steps %r raised %s: %s' % (who, act[2], rep['exc'], rep.get('msg')), i))
+                    elif rep['ok'] != 0:
+                        res.failures.append(('C09:raises', 'process %s, steps %r: wrong exception behaviour' % (who, act[2]), i))
+                    oracle.children = mem[who]
+                    oracle_steps(oracle, tree.pids[who], pool, act[2])
+                elif kind == 'fork':
+                    new = act[2]
+                    pid = tree.fork(who, new)
+                    mem[new] = list(mem[who])
+                    nrun[new] = 0
+                    ups = [tree.pids[a] for a in tree.ancestors(new)]
+                    at_fork[new] = {bn: (len(after[bn]), len(raw_after[bn])) for bn in after
+                                    if any(bn.endswith('_%s.db' % q) for q in ups)}
+                    rep = tree.call(new, ['pid'])
+                    if rep.get('ok') != pid or pid in [q for n, q in tree.pids.items() if n != new]:
+                        res.failures.append(('C09:raises', 'fork of %s by %s returned %r, the child reports %r' % (new, who, pid, rep), i))
+                    res.count('cfork:fork-depth-%d' % len(ups))
+                else:
+                    rc = tree.exit(who)
+                    if rc not in (0, None):
+                        res.failures.append(('C09:raises', 'process %s exited with status %r' % (who, rc), i))
+                after = mpsim.snapshot(sim.dir)
+                raw_after = mpsim.raw_snapshot(sim.dir)
+                oracle_unreadable(res, i, after)
+                oracle_corrupt(res, i, after)
+                oracle_tree(res, i, act, tree, nrun.get(who, 0), before, after, raw_before, raw_after)
+                try:
+                    collected = sim.collect()
+                except Exception as e:  # noqa
+                    res.failures.append(('C09:raises', 'collect() raised %s: %s' % (type(e).__name__, e), i))
+                    continue
+                canon, dups = mpsim.canon_fams(collected)
+                for d in dups:
+                    res.failures.append(('C09:fork-conservation', 'collector output: ' + d, i))
+                for sig, what in check_exact(canon, oracle.expected_conserved(), 'C09:fork-conservation'):
+                    res.failures.append((sig, 'after %r of process %s: %s (the expected totals are the sums of the updates issued by all '
+                                         'processes of the tree)' % (kind, who, what), i))
+                for sig, what in oracle.check_gauges(canon):
+                    res.failures.append((sig.replace('C09:', 'C09:fork-'), 'after %r of process %s: %s' % (kind, who, what), i))
+        except mpsim.ForkTreeError as e:
+            res.failures.append(('C09:raises', str(e), i))
+        finally:
+            pids = dict(tree.pids)
+            tree.close()
+        res.failures = [(sig, cfork_pid_text(what, pids), k) for sig, what, k in res.failures]
+        res.count('cfork:histories')
+        if len(pids) > 2:
+            res.count('cfork:histories-with-several-forks')
+        res.key = hashlib.md5(json.dumps([scen['pool'], script, scen.get('initial_mmap_size')], sort_keys=True).encode('utf-8')).hexdigest()
+    return res
+
+
+def cfork_materials():
+    """(pool, pre-fork steps of P, P's steps after the fork [NEW series, existing series, NEW series in another file],
+    a child's steps [inherited series, NEW series, inherited series of the other metric], a grandchild's steps)"""
+    t = [B(10.0 + j) for j in range(6)]
+    return [
+        ([mdef('counter', 'cl', ['l']), mdef('gauge', 'ga', ['l'], 'all')],
+         [['inc', 0, ['x'], B(2.0)], ['set', 1, ['x'], B(3.0), t[0]]],
+         [['inc', 0, ['y'], B(5.0)], ['inc', 0, ['x'], B(1.0)], ['set', 1, ['z'], B(7.0), t[1]]],
+         [['inc', 0, ['x'], B(1.0)], ['inc', 0, ['w'], B(4.0)], ['set', 1, ['x'], B(9.0), t[2]]],
+         [['inc', 0, ['x'], B(16.0)], ['set', 1, ['v'], B(11.0), t[3]]]),
+        ([mdef('histogram', 'hl', ['l'], '', 'small'), mdef('summary', 's', ['l'])],
+         [['obs', 0, ['x'], B(1.0)], ['obs', 1, ['x'], B(2.5)]],
+         [['obs', 0, ['y'], B(3.0)], ['obs', 1, ['x'], B(1.0)], ['obs', 1, ['y'], B(2.0)]],
+         [['obs', 0, ['x'], B(2.5)], ['obs', 1, ['w'], B(4.0)], ['obs', 1, ['x'], B(0.5)]],
+         [['obs', 1, ['x'], B(8.0)], ['obs', 0, ['v'], B(0.5)]]),
+        ([mdef('gauge', 'gv', ['l'], 'livesum'), mdef('gauge', 'gn', ['l'], 'min'), mdef('counter', 'c')],
+         [['set', 0, ['x'], B(2.0), t[0]], ['set', 1, ['x'], B(-1.0), t[0]], ['inc', 2, [], B(1.0)]],
+         [['set', 0, ['y'], B(4.0), t[1]], ['inc', 2, [], B(2.0)], ['set', 1, ['y'], B(-3.0), t[1]]],
+         [['inc', 2, [], B(4.0)], ['inc', 0, ['w'], B(1.0), t[2]], ['set', 1, ['x'], B(-5.0), t[2]]],
+         [['inc', 0, ['x'], B(8.0), t[3]], ['inc', 2, [], B(8.0)]]),
+        ([mdef('gauge', 'gr', ['l'], 'mostrecent'), mdef('gauge', 'gl', (), 'liveall'), mdef('summary', 's')],
+         [['set', 0, ['x'], B(1.0), t[0]], ['set', 1, [], B(2.0), t[0]], ['obs', 2, [], B(1.0)]],
+         [['set', 0, ['y'], B(3.0), t[1]], ['obs', 2, [], B(2.0)], ['inc', 1, [], B(1.0), t[1]]],
+         [['obs', 2, [], B(4.0)], ['set', 0, ['w'], B(5.0), t[2]], ['set', 1, [], B(6.0), t[2]]],
+         [['set', 0, ['x'], B(7.0), t[3]], ['obs', 2, [], B(8.0)]]),
+    ]
+
+
+def merges(seqs):
+    """all interleavings of the given sequences (each keeps its own order)"""
+    seqs = [s for s in seqs if s]
+    if not seqs:
+        yield []
+        return
+    for k, s in enumerate(seqs):
+        for rest in merges(seqs[:k] + [s[1:]] + seqs[k + 1:]):
+            yield [s[0]] + rest
+
+
+def cfork_script(mat, tokens):
+    """tokens: 'pre' | 'p1'..'p3' (P) | 'F<k>' (P forks P.<k>) | 'a<k>1'..'a<k>3' (P.<k>) | 'f<k>' (P.<k> forks P.<k>.0) |
+    'g<k>1' 'g<k>2' (P.<k>.0) | 'X<k>' / 'x<k>' (P.<k> / P.<k>.0 exits) | 'pp' (P: all three again as ONE action)"""
+    pool, pre, P, C, G = mat
+    out = []
+    for tk in tokens:
+        if tk == 'pre':
+            out.append(['run', 'P', pre])
+        elif tk == 'pp':
+            out.append(['run', 'P', P])
+        elif tk[0] == 'p':
+            out.append(['run', 'P', [P[int(tk[1]) - 1]]])
+        elif tk[0] == 'F':
+            out.append(['fork', 'P', 'P.' + tk[1]])
+        elif tk[0] == 'a':
+            out.append(['run', 'P.' + tk[1], [C[int(tk[2]) - 1]]])
+        elif tk[0] == 'f':
+            out.append(['fork', 'P.' + tk[1], 'P.%s.0' % tk[1]])
+        elif tk[0] == 'g':
+            out.append(['run', 'P.%s.0' % tk[1], [G[int(tk[2]) - 1]]])
+        elif tk[0] == 'X':
+            out.append(['exit', 'P.' + tk[1]])
+        elif tk[0] == 'x':
+            out.append(['exit', 'P.%s.0' % tk[1]])
+    return out
+
+
+CFORK_CHAINS = [
+    'pre F0 f0 p1 g01 p2 a01 p3 g02 a02',           # the child forks before it ever acts: the grandchild holds P's handles
+    'pre F0 p1 f0 p3 g01 p2 a01 g02',
+    'pre F0 a01 f0 a02 p1 g01 a03 g02 p2',          # the grandchild inherits the CHILD's files, the child appends (a02) before g01
+    'pre F0 p1 a01 p3 f0 a02 g01 p2 X0 g02 p1',     # the child exits while the grandchild lives on
+    'F0 pre f0 p1 a01 p3 g01 p2 a02 g02',           # fork before anything exists: nothing inherited but the closure
+]
+CFORK_SIBLINGS = [
+    'pre F0 p1 F1 p3 a01 p2 a11 a02 a12 pp',        # two children forked at different file sizes of P
+    'pre F0 F1 p1 a11 p3 a01 p2 a12 a02',
+    'pre F0 p1 a01 F1 p3 a02 a11 X0 p2 a12',
+    'pre F0 p1 F1 f1 p3 g11 a01 p2 a11 g12 x1 X1 X0 pp',    # siblings and a chain
+    'pre F0 p1 X0 p2 F1 p3 X1 pp',                   # children that never act
+]
+
+
+def cfork_systematic(quick):
+    mats = cfork_materials()
+    for mi, mat in enumerate(mats):
+        # EXHAUSTIVE: one child, every interleaving of P's three steps after the fork with the child's first two
+        for order in merges([['p1', 'p2', 'p3'], ['a01', 'a02']]):
+            yield {'cfork': True, 'pool': mat[0], 'variant': mi % 3, 'script': cfork_script(mat, ['pre', 'F0'] + order + ['X0', 'p2'])}
+        for line in CFORK_CHAINS + CFORK_SIBLINGS:
+            yield {'cfork': True, 'pool': mat[0], 'variant': mi % 3, 'script': cfork_script(mat, line.split())}
+    if not quick:
+        # every interleaving of P (3 steps), the child (fork of a grandchild + 2 steps) and the grandchild (2 steps)
+        for mi, mat in enumerate(mats[:2]):
+            for corder in (['f0', 'a01', 'a02'], ['a01', 'f0', 'a02']):
+                for order in merges([['p1', 'p2', 'p3'], corder, ['g01', 'g02']]):
+                    if order.index('f0') < order.index('g01'):
+                        yield {'cfork': True, 'pool': mat[0], 'variant': 0, 'script': cfork_script(mat, ['pre', 'F0'] + order)}
+    # GROWTH: the parent's file grows (truncate + new mapping) between the fork and the child's first operation, the
+    # child still holds the mapping of the OLD size; also a file that had grown before the fork, and the child's own growth
+    lv = lambda j: 'child-%02d-%s' % (j, 'y' * (6 + 3 * (j % 4)))
+    t = B(10.0)
+    for name, md, upd in [('counter', mdef('counter', 'cl', ['l']), lambda j: ['inc', 0, [lv(j)], B(1.0 + j % 3)]),
+                          ('gauge-all', mdef('gauge', 'ga', ['l'], 'all'), lambda j: ['set', 0, [lv(j)], B(2.0 + j), t]),
+                          ('histogram', mdef('histogram', 'hl', ['l'], '', 'small'), lambda j: ['obs', 0, [lv(j)], B([1.0, 2.5, 8.0][j % 3])])]:
+        for ims, n0, n1 in ((256, 1, 6), (256, 5, 9), (512, 2, 14)):
+            if name == 'histogram':
+                n1 = n0 + 3
+            grow = [upd(j) for j in range(n0, n1)]
+            base = {'cfork': True, 'pool': [md], 'variant': 0, 'initial_mmap_size': ims}
+            R = lambda who, steps: ['run', who, steps]
+            yield dict(base, script=[R('P', [upd(j) for j in range(n0)]), ['fork', 'P', 'P.0'], R('P', grow), R('P.0', [upd(0)]),
+                                     R('P', [upd(n1 - 1), upd(n1)]), R('P.0', [upd(n1 + 1)]), R('P', [upd(0)])])
+            yield dict(base, script=[R('P', [upd(j) for j in range(n0)]), ['fork', 'P', 'P.0'], ['fork', 'P.0', 'P.0.0'], R('P', grow[:2]),
+                                     R('P.0.0', [upd(0)] + grow), R('P', grow[2:]), R('P.0', [upd(0)]), ['fork', 'P', 'P.1'],
+                                     R('P', [upd(n1)]), R('P.0.0', [upd(n1 + 1)]), R('P.1', [upd(1)]), R('P.0', [upd(n1 + 2)])])
+
+
+def shrink_cfork(case, sig, what):
+    """fewer actions, then fewer steps inside each remaining 'run' action; -> (case, what of the shrunk case)"""
+    def fails(script):
+        return [f for f in run_cfork(dict(case, script=script)).failures if f[0] == sig]
+    script = lib.shrink_list(case['script'], lambda sc: bool(fails(sc)), max_rounds=30)
+    for k in range(len(script)):
+        if script[k][0] == 'run' and len(script[k][2]) > 1:
+            def still(steps, k=k):
+                return bool(fails(script[:k] + [['run', script[k][1], steps]] + script[k + 1:]))
+            script[k] = ['run', script[k][1], lib.shrink_list(script[k][2], still, max_rounds=8)]
+    f = fails(script)
+    if not f:
+        return case, what
+    return dict(case, script=script), f[0][1]
+
+
+def gen_cfork(rng, all_modes):
+    """seeded random process tree: up to 4 forks (depth <= 3), chunks of a long random history dealt to the live
+    processes — after a fork the FORKING process is favoured, so that it keeps running before the new process acts"""
+    h = gen_history(rng, all_modes, long=True)
+    steps = [st for st in h['steps'] if st[0] not in ('pid', 'reset', 'remove', 'clear', 'keep') and not st[0].startswith('old-')]
+    scen = {'cfork': True, 'pool': h['pool'], 'variant': h['variant']}
+    if rng.random() < 0.35:
+        scen['initial_mmap_size'] = rng.choice([256, 512, 1024])
+    script = []
+    alive = ['P']
+    forks = 0
+    favoured = None
+    k = rng.randint(1, 4)
+    script.append(['run', 'P', steps[:k]])
+    while k < len(steps):
+        r = rng.random()
+        if forks < 4 and r < 0.22:
+            par = rng.choice([p for p in alive if p.count('.') < 2])
+            new = '%s.%d' % (par, sum(1 for a in script if a[0] == 'fork' and a[1] == par))
+            script.append(['fork', par, new])
+            alive.append(new)
+            forks += 1
+            favoured = par
+            continue
+        if len(alive) > 1 and r < 0.27:
+            gone = rng.choice(alive[1:])
+            alive.remove(gone)
+            script.append(['exit', gone])
+            favoured = None if favoured == gone else favoured
+            continue
+        who = favoured if favoured is not None and rng.random() < 0.6 else rng.choice(alive)
+        if who != favoured:
+            favoured = None
+        n = rng.randint(1, 3)
+        script.append(['run', who, steps[k:k + n]])
+        k += n
+    scen['script'] = script
+    return scen
+
+
 # ================================================================================================== os.fork / raw libc fork
 RAWFORK_VARIANTS = [
     {'rawfork': True, 'order': ['os', 'raw'], 'a0': B(1.0), 'v0': B(3.0), 'incs': [B(2.0), B(4.0)], 'sets': [B(5.0), B(6.0)],
@@ -1466,7 +1834,12 @@ class Reporter:
                 continue
             seen.add(sig)
             case = scen
-            if not scen.get('fork') and not scen.get('rawfork'):
+            if scen.get('cfork'):
+                case = dict(scen, script=scen['script'][:i + 1])
+                if sig not in self.shrunk and len(self.shrunk) < 3:
+                    self.shrunk.add(sig)
+                    case, what = shrink_cfork(case, sig, what)
+            elif not scen.get('fork') and not scen.get('rawfork'):
                 case = dict(scen, expect_growth=False, steps=scen['steps'][:i + 1])
                 if sig not in self.shrunk and len(self.shrunk) < 3:
                     self.shrunk.add(sig)
@@ -1485,7 +1858,7 @@ class Reporter:
             return
         what = divs[0]
         case = scen
-        if not scen.get('fork') and not scen.get('rawfork') and self.shrunk_div < 2:
+        if not scen.get('fork') and not scen.get('rawfork') and not scen.get('cfork') and self.shrunk_div < 2:
             self.shrunk_div += 1
             ctx = self.ctx
 
@@ -1526,7 +1899,11 @@ def run(ctx):
                 '(look-alike groups together); growth histories (initial store size patched to 256/512 bytes: fill a file past it, leave the identity, come '
                 'back by identity change / pid reuse / death+restart, update old and new children) and one unpatched with ~700 children; '
                 'stale-handle histories (a kept old child object next to its re-created successor, updated around identity changes); '
-                '3 real-process cases (helper subprocess, default value class, os.fork and raw libc fork); the falsy identities 0 and "" occur as initial identity, change target, identity returned to, reused pid '
+                '3 real-process cases (helper subprocess, default value class, os.fork and raw libc fork); concurrent fork trees (real '
+                'os.fork of the harness process, interleaving fixed by pipes: every interleaving of the parent\'s 3 post-fork steps '
+                '[new series / existing series / new series in another file] with the child\'s first 2 operations for 4 metric pools, '
+                'chains child->grandchild, several children, idle children, files growing between fork and the child\'s first operation, '
+                'seeded random trees; bytes of all foreign files compared around every action, totals and per-process gauges collected); the falsy identities 0 and "" occur as initial identity, change target, identity returned to, reused pid '
                 'and dead pid (systematic families re-run with 10/11 renamed, ~40 % / ~10 % of the random ones); '
                 'observed after every step; non-trivial when it contains an identity change, a new worker or a death; '
                 'distinct by value-level log + final collection')
@@ -1535,9 +1912,11 @@ def run(ctx):
     n_random = 350 if quick else 5000
     n_world = 220 if quick else 4000
     n_fork = 2 if quick else 200
+    n_cfork = 12 if quick else 400
     if ctx.broken:
         n_random *= 3
         n_world *= 3
+        n_cfork *= 3
         budget *= 1.5
     t0 = time.time()
     rep = Reporter(ctx)
@@ -1614,6 +1993,17 @@ def run(ctx):
         if len(batch) >= 60:
             flush(ctx, rep, batch)
     flush(ctx, rep, batch)
+    for scen in cfork_systematic(quick):
+        batch.append((scen, run_cfork(scen)))
+        ctx.count('histories:concurrent-fork-systematic')
+    flush(ctx, rep, batch)
+    for k in range(n_cfork):
+        scen = gen_cfork(ctx.rng, all_modes)
+        batch.append((scen, run_cfork(scen)))
+        ctx.count('histories:concurrent-fork-random')
+        if len(batch) >= 40:
+            flush(ctx, rep, batch)
+    flush(ctx, rep, batch)
     for k in range(n_fork):
         scen = gen_fork_history(ctx.rng, all_modes)
         batch.append((scen, run_fork_history(scen)))
@@ -1657,6 +2047,12 @@ def replay(ctx, case):
     elif scen.get('rawfork'):
         for sig, what, i in run_rawfork(scen).failures:
             ctx.fail(sig, what, scen)
+    elif scen.get('cfork'):
+        res = run_cfork(scen)
+        for a in scen['script']:
+            print('REPLAY', a)
+        for sig, what, i in res.failures:
+            ctx.fail(sig, 'action %d: %s' % (i, what), scen)
     elif scen.get('fork'):
         res = run_fork_history(scen)
         for sig, what, i in res.failures:
